@@ -47,62 +47,71 @@ structure Updates where
 def Updates.isEmpty (u : Updates) : Bool :=
   u.title.isNone && u.body.isNone && u.epic.isNone && u.state.isNone && u.claim.isNone
 
-/-- `buildSetEvents` (commands_work.go:478-630), branch for branch. -/
+/-! `buildSetEvents` (commands_work.go), stage by stage in source order. -/
+
+/-- implicit claim: moving an unclaimed task to doing/error without a claim key uses `--agent` -/
+def implicitClaim (t : Task) (u : Updates) (agent : String) : Except CmdErr (Option String) :=
+  if !t.isEpic && t.claimedBy == "" then
+    match u.state, u.claim with
+    | some s, none =>
+      if s == "doing" || s == "error" then
+        if agent == "" then .error .implicitClaimNeedsAgent else .ok (some agent)
+      else .ok none
+    | _, c => .ok c
+  else .ok u.claim
+
+def evTitle (id : Id) (now : Time) : Option String → Except CmdErr (List Event)
+  | none => .ok []
+  | some s =>
+    let s' := Text.trimSpace s
+    if s' == "" then .error .emptyTitle else .ok [Event.title id s' (some now)]
+
+def evBody (id : Id) (now : Time) : Option String → List Event
+  | none => []
+  | some b => [Event.body id b (some now)]
+
+/-- no lookup here; `updateEvents` checks the epic before calling -/
+def evEpic (t : Task) (now : Time) : Option String → Except CmdErr (List Event)
+  | none => .ok []
+  | some e => if t.isEpic then .error .epicEpic else .ok [Event.epic t.id e (some now)]
+
+/-- claim / unclaim; clearing the claim without a state change needs a state that tolerates "unclaimed" -/
+def evClaim (t : Task) (stateGiven : Bool) (now : Time) : Option String → Except CmdErr (List Event)
+  | none => .ok []
+  | some cv =>
+    if t.isEpic then .ok []
+    else if cv == "" then
+      if !stateGiven && !claimInvariantOk t.st "" then .error .claimInvariant else .ok [Event.unclaim t.id]
+    else .ok [Event.claim t.id cv (some now)]
+
+/-- explicit state: valid name, allowed transition, claim rule for the resulting claimant -/
+def evState (t : Task) (claim : Option String) (now : Time) : Option String → Except CmdErr (List Event)
+  | none => .ok []
+  | some s =>
+    let st := St.ofString s
+    if !st.valid then .error .invalidState
+    else if !validTransition t.st st then .error .badTransition
+    else
+      let nc := if claim.isSome && !t.isEpic then claim.getD "" else t.claimedBy
+      let nc := if st.clearsClaim then "" else nc
+      if !claimInvariantOk st nc then .error .claimInvariant else .ok [Event.state t.id st (some now)]
+
+/-- a non-empty claim without a state implies state=doing, through the transition table -/
+def evTrail (t : Task) (claim : Option String) (stateGiven : Bool) (now : Time) : Except CmdErr (List Event) :=
+  if claim.isSome && !t.isEpic && claim.getD "" != "" && !stateGiven then
+    if !validTransition t.st .doing then .error .badTransition else .ok [Event.state t.id .doing (some now)]
+  else .ok []
+
+/-- `buildSetEvents` -/
 def buildSetEvents (t : Task) (u : Updates) (agent : String) (now : Time) : Except CmdErr (List Event) := do
-  let id := t.id
-  -- implicit claim
-  let claim ←
-    if !t.isEpic && t.claimedBy == "" then
-      match u.state, u.claim with
-      | some s, none =>
-        if s == "doing" || s == "error" then
-          if agent == "" then throw .implicitClaimNeedsAgent else pure (some agent)
-        else pure none
-      | _, c => pure c
-    else pure u.claim
-  -- title
-  let evTitle ← match u.title with
-    | none => pure []
-    | some s =>
-      let s' := Text.trimSpace s
-      if s' == "" then throw .emptyTitle else pure [Event.title id s' (some now)]
-  -- body
-  let evBody := match u.body with
-    | none => []
-    | some b => [Event.body id b (some now)]
-  -- epic (no lookup!)
-  let evEpic ← match u.epic with
-    | none => pure []
-    | some e => if t.isEpic then throw .epicEpic else pure [Event.epic id e (some now)]
-  -- claim
-  let claimWasSet := claim.isSome && !t.isEpic
-  let claimValue := claim.getD ""
-  let evClaim ← match claim with
-    | none => pure []
-    | some cv =>
-      if t.isEpic then pure [] else
-      if cv == "" then
-        -- clearing the claim without a state change: the kept state must tolerate "unclaimed"
-        if u.state.isNone && !claimInvariantOk t.st "" then throw .claimInvariant
-        else pure [Event.unclaim id]
-      else pure [Event.claim id cv (some now)]
-  -- state
-  let evState ← match u.state with
-    | none => pure []
-    | some s =>
-      let st := St.ofString s
-      if !st.valid then throw .invalidState
-      else if !validTransition t.st st then throw .badTransition
-      else
-        let nc := if claimWasSet then claimValue else t.claimedBy
-        let nc := if st.clearsClaim then "" else nc
-        if !claimInvariantOk st nc then throw .claimInvariant
-        else pure [Event.state id st (some now)]
-  let evTrail ←
-    if claimWasSet && claimValue != "" && u.state.isNone then
-      if !validTransition t.st .doing then throw .badTransition else pure [Event.state id .doing (some now)]
-    else pure []
-  pure (evTitle ++ evBody ++ evEpic ++ evClaim ++ evState ++ evTrail)
+  let claim ← implicitClaim t u agent
+  let e1 ← evTitle t.id now u.title
+  let e2 := evBody t.id now u.body
+  let e3 ← evEpic t now u.epic
+  let e4 ← evClaim t u.state.isSome now claim
+  let e5 ← evState t claim now u.state
+  let e6 ← evTrail t claim u.state.isSome now
+  pure (e1 ++ e2 ++ e3 ++ e4 ++ e5 ++ e6)
 
 /-! ## lock sections
 
